@@ -1,5 +1,6 @@
-CONSTANTS Kind = "storage" MaxOpens = 2 FixOpenLeak = TRUE FixDescribeLeak = TRUE CloseStateFirst = TRUE SetKeepsRunning = TRUE Strict = TRUE
+CONSTANTS Kind = "storage" MaxOpens = 2 FixOpenLeak = TRUE FixDescribeLeak = TRUE CloseStateFirst = TRUE SetKeepsRunning = TRUE SetStopsRejected = TRUE Strict = TRUE
 SPECIFICATION Spec
 VIEW View
 CHECK_DEADLOCK FALSE
 INVARIANTS TypeOK NoErr NoLeak ReportedStateFollowsDriver ClosedMeansClosed RunningIsTrue
+PROPERTIES SetLeavesNoRunner
